@@ -54,6 +54,7 @@ pub fn generate(prop: &str, tier: &str, seed: u64, outdir: &str) {
         "C12" => gen_c12(&mut out, &mut rng, thorough),
         "C16" => gen_c16(&mut out, &mut rng, thorough),
         "C09" => gen_c09(&mut out, &mut rng, thorough),
+        "C02" => gen_c02(&mut out, &mut rng, thorough),
         "C15" => {
             let scripts: Vec<usize> = if thorough { (0..crate::faults::NUM_SCRIPTS).collect() } else { vec![0, 1, 2, 4, 5] };
             for n in scripts {
@@ -1533,5 +1534,193 @@ fn gen_c09(out: &mut Out, rng: &mut Rng, thorough: bool) {
             }
         }
         out.req("raw_bytes", format!("@open_bytes {}", hex_of_bytes(&f)));
+    }
+}
+
+// ------------------------------------------------------------------------------------
+// C02: databases written by the independent encoder
+
+fn shuffled(rng: &mut Rng, n: usize) -> Vec<usize> {
+    let mut v: Vec<usize> = (0..n).collect();
+    for i in (1..n).rev() {
+        let j = rng.below(i as u64 + 1) as usize;
+        v.swap(i, j);
+    }
+    v
+}
+
+fn gen_c02(out: &mut Out, rng: &mut Rng, thorough: bool) {
+    use crate::decode::*;
+    use crate::exec::ALL_CP;
+    let n = if thorough { 10_000 } else { 350 };
+    for case in 0..n {
+        // code page: every supported id including 0; non-ASCII text only under UTF-8 / id 0
+        let cp_id: u32 = match rng.below(4) {
+            0 => 0,
+            1 => 65001,
+            _ => ALL_CP[rng.below(ALL_CP.len() as u64) as usize].1.id() as u32,
+        };
+        let unicode_ok = cp_id == 0 || cp_id == 65001;
+        let long_refs = rng.chance(1, 3);
+        let ntab = 1 + rng.below(3) as usize;
+        let mut tables: Vec<EncTable> = vec![];
+        for ti in 0..ntab {
+            let ncols = match rng.below(10) {
+                0 => 32,
+                1 => 17,
+                _ => 1 + rng.below(5) as usize,
+            };
+            let mut cols = vec![];
+            for j in 0..ncols {
+                let ct = match rng.below(4) {
+                    0 => CT::I16,
+                    1 => CT::I32,
+                    _ => CT::Str(*rng.pick(&[0usize, 8, 72, 255])),
+                };
+                let mut c = ColDef::new(&format!("c{j}"), ct);
+                c.key = j == 0 || rng.chance(1, 7);
+                c.nullable = !c.key && rng.chance(2, 3);
+                c.localizable = rng.chance(1, 6);
+                cols.push(c);
+            }
+            if ncols > 1 && rng.chance(1, 3) {
+                let k = 1 + rng.below(ncols as u64 - 1) as usize;
+                cols.swap(0, k);
+            }
+            let nrows = rng.below(7) as usize;
+            let mut rows = vec![];
+            for r in 0..nrows {
+                let row: Vec<V> = cols
+                    .iter()
+                    .map(|c| {
+                        if c.nullable && rng.chance(1, 4) {
+                            return V::Null;
+                        }
+                        match c.ct {
+                            CT::I16 => V::Int(if c.key { r as i32 * 3 - 5 } else { *rng.pick(&[-32767, 32767, 0, 1, -1, 12]) }),
+                            CT::I32 => V::Int(if c.key { r as i32 * 70000 - 100000 } else { *rng.pick(&[i32::MIN + 1, i32::MAX, 0, 65536, -65537]) }),
+                            CT::Str(_) => {
+                                let base = if c.key { format!("k{r}") } else { rng.pick(&["shared", "x", "two words", "Zed"]).to_string() };
+                                if unicode_ok && rng.chance(1, 6) {
+                                    V::Str(format!("{base}\u{e9}\u{65e5}"))
+                                } else if rng.chance(1, 60) {
+                                    V::Str(format!("{base}{}", "L".repeat(66000)))
+                                } else {
+                                    V::Str(base)
+                                }
+                            }
+                        }
+                    })
+                    .collect();
+                rows.push(row);
+            }
+            tables.push(EncTable { name: format!("Tab{ti}"), cols, rows });
+        }
+        let layout = EncLayout {
+            long_refs,
+            cp_id,
+            filler: match rng.below(4) {
+                0 => vec![],
+                1 => vec![("".into(), 0), ("".into(), 0)],
+                2 => vec![("unused text".into(), 0), ("x".into(), 3)],
+                _ => vec![("".into(), 0), ("shared".into(), 2), ("".into(), 0)],
+            },
+            overcount: if rng.chance(1, 4) { 1 + rng.below(3) as u16 } else { 0 },
+            duplicate: rng.chance(1, 4),
+            with_validation: rng.chance(2, 3),
+            reverse_rows: rng.chance(1, 3),
+            int16_size: if rng.chance(1, 5) { 1 } else { 2 },
+        };
+        let mut entries = encode_db(&layout, &tables);
+        // summary information by the independent property-set writer
+        let sum_cp: u16 = if rng.chance(1, 2) { 65001 } else { *rng.pick(&[1252u16, 0, 932, 20127]) };
+        let enc_sum = |s: &str| -> Vec<u8> {
+            if sum_cp == 65001 || sum_cp == 0 { s.as_bytes().to_vec() } else { s.bytes().collect() }
+        };
+        let mut props: Vec<(u32, PVal)> = vec![(1, PVal::I2(sum_cp as i16))];
+        for (id, text) in [(2u32, "Installation Database"), (3, "Subject x"), (4, "Ann"), (6, "c"), (18, "tool 1.0"), (7, "x64;1033,1041"), (9, "{34AB5C53-9B30-4E14-AEF0-2C1C7BA826C0}")] {
+            if rng.chance(2, 3) {
+                let t = if (sum_cp == 65001) && rng.chance(1, 5) { format!("{text}\u{e9}") } else { text.to_string() };
+                props.push((id, PVal::Str(enc_sum(&t))));
+            }
+        }
+        if rng.chance(1, 2) {
+            props.push((15, PVal::I4(*rng.pick(&[0, 2, -1, i32::MAX]))));
+        }
+        if rng.chance(1, 2) {
+            props.push((12, PVal::Time(rng.next())));
+        }
+        if rng.chance(1, 5) {
+            props.push((*rng.pick(&[5u32, 8, 14, 19, 100]), rng.pick(&[PVal::Empty, PVal::Null, PVal::I2(7), PVal::I4(9), PVal::I1(-3)]).clone()));
+        }
+        let has_i1 = props.iter().any(|p| matches!(p.1, PVal::I1(_)));
+        let np = props.len();
+        let pl = PropLayout {
+            version: if has_i1 { 1 } else { rng.below(2) as u16 },
+            os: rng.below(3) as u16,
+            os_version: *rng.pick(&[10u16, 0, 6, 0xffff]),
+            section_gap: *rng.pick(&[0usize, 0, 4, 16]),
+            table_order: shuffled(rng, np),
+            value_order: shuffled(rng, np),
+            gaps: (0..np).map(|_| if rng.chance(1, 5) { 4 * rng.below(3) as usize } else { 0 }).collect(),
+        };
+        entries.push(("\u{5}SummaryInformation".to_string(), write_propset(&props, &pl)));
+        // a couple of binary streams
+        for sname in ["logo", "Bin.2"] {
+            if rng.chance(1, 3) {
+                entries.push((pack_name(sname, false), (0..rng.below(300)).map(|i| i as u8).collect()));
+            }
+        }
+        let pt = rng.below(3);
+        out.req("load", format!("load {pt} {}", entries_tok(&entries)));
+        out.req("snapshot", "snapshot".into());
+        // read-only close must not disturb anything; then edits through the API
+        if case % 3 == 0 {
+            out.req("reopen", format!("reopen {}", rng.pick(&crate::hist::CLOSE_MODES)));
+            out.req("snapshot", "snapshot".into());
+        }
+        let t0 = &tables[0];
+        let ki = t0.cols.iter().position(|c| c.key).unwrap_or(0);
+        let mut row: Vec<V> = t0
+            .cols
+            .iter()
+            .map(|c| match c.ct {
+                CT::I16 => V::Int(1234),
+                CT::I32 => V::Int(987654),
+                CT::Str(_) => V::Str("added".into()),
+            })
+            .collect();
+        if let CT::Str(_) = t0.cols[ki].ct {
+            row[ki] = V::Str("zz_new".into());
+        }
+        let mut parts = vec!["1".to_string(), row.len().to_string()];
+        for v in &row {
+            parts.push(v.tok());
+        }
+        out.req("edit_insert", format!("insert {} {}", hex_of_str(&t0.name), parts.join(" ")));
+        out.req("snapshot", "snapshot".into());
+        if let Some(c) = t0.cols.iter().find(|c| !c.key) {
+            let v = match c.ct {
+                CT::Str(_) => V::Str("upd".into()),
+                _ => V::Int(7),
+            };
+            out.req("edit_update", format!("update {} 1 {} {} -", hex_of_str(&t0.name), hex_of_str(&c.name), v.tok()));
+            out.req("snapshot", "snapshot".into());
+        }
+        if rng.chance(1, 2) {
+            out.req("edit_delete", format!("delete {} eq C{} {}", hex_of_str(&t0.name), hex_of_str(&t0.cols[ki].name), row[ki].tok()));
+            out.req("snapshot", "snapshot".into());
+        }
+        if rng.chance(1, 3) {
+            out.req("edit_stream", format!("stream_write {} 0a0b0c", hex_of_str("added.bin")));
+        }
+        if rng.chance(1, 3) {
+            out.req("edit_summary", format!("sum_set author {}", hex_of_str("Bob")));
+        }
+        out.req("flush", "flush".into());
+        out.req("snapshot", "snapshot".into());
+        out.req("raw", "raw".into());
+        out.req("reopen", format!("reopen {}", rng.pick(&crate::hist::CLOSE_MODES)));
+        out.req("snapshot", "snapshot".into());
     }
 }
